@@ -25,7 +25,23 @@ for ml in (20, 32, 64):
                     level="Pc", unwind=70, spec_unwind=70, native=False, fn=["botpDT", "decFromU32"],
                     note="memory safety and termination of botpDT for all MAC values (exact-size otp and mac objects)"))
 GROUPS = [g for g in GROUPS if g]
+BF = ["src/core/mem.c", "src/core/util.c", "src/core/u64.c", "src/core/word.c", "src/core/u32.c", "src/core/u16.c"]
+GROUPS += [
+    G("bash_f6", "harness/C03/bash_f.c", "h_bash_f6", BF, level="Pc", backend="portfolio", extra=["--no-standard-checks"], ndebug=True,
+      unwind=30, search=20000, split=True, timeout=900, fn=["bashR (macro)", "bashS (macro)", "P0..P5", "c1..c24"],
+      note="6 rounds (one cycle of the in-register permutation) + all 24 constants; all states"),
+    G("bash_f.search", "harness/C03/bash_f.c", "h_bash_f", BF, level="N", backend="native", search=200000, fn=["bashF0"],
+      note="native differential search of the full 24 rounds against the spec; NOT proof (the proof is bash_f24 in the thorough tier)"),
+    G("bash_f_octets", "harness/C03/bash_f.c", "h_bash_f_octets", BF, level="Pc", backend="portfolio", extra=["--no-standard-checks"],
+      unwind=200, search=20000, timeout=1500, tier="thorough", required=False, fn=["bashF"],
+      note="octet interface == word interface (little-endian); z3 ~14 min"),
+    G("bash_f_octets.search", "harness/C03/bash_f.c", "h_bash_f_octets", BF, level="N", backend="native", search=100000, fn=["bashF"],
+      note="native stand-in for the octet interface; NOT proof"),
+    G("bash_f24", "harness/C03/bash_f.c", "h_bash_f", BF, level="P", backend="portfolio", extra=["--no-standard-checks"], ndebug=True,
+      unwind=30, search=20000, timeout=2400, tier="thorough", fn=["bashF0"],
+      note="the full permutation == STB 34.101.77 bash-f for all 2^1536 states (cvc5 ~5 min)"),
+]
 TRUSTED = []
 ASSUMPTIONS = ["little-endian target"]
-NOT_COVERED = ["bash-f against STB 34.101.77 (planned: cvc5 on the 24-round spec)", "bash hash / prg buffering and padding",
+NOT_COVERED = ["bash_f32.c and the SSE2/AVX2/AVX-512/NEON variants of bash-f", "bash hash / prg buffering and padding",
                "brngCTRStepR / brngHMACStepR recurrences over uninterpreted hash", "OCRA suite-string parsing, TOTP wall clock"]
